@@ -406,6 +406,63 @@ def special_files(ctx):
             rec.outcome("special:" + kind)
 
 
+UNSORTED_BASES = [
+    [("1.0", "(Def/A, Onset)"), ("2.0", "Zzqnonsense, (Def/B/x, Onset)"), ("3.0", "(Def/A, Offset)"), ("4.0", "(Def/B/x, Offset)"),
+     ("5.0", "(Def/A, Inset)")],
+    [("1.0", "(Def/A, Onset)"), ("2.0", "(Def/B/x, Onset)"), ("3.0", "Zzqnonsense, (Def/A, Offset)"), ("4.0", "(Def/A, Inset)"),
+     ("5.0", "(Def/B/x, Offset)")],
+    [("1.0", "Zzqnonsense"), ("2.0", "(Def/A, Offset)"), ("3.0", "(Def/A, Onset)"), ("4.0", "(Def/A, Onset, Delay/0.5 s)")],
+]
+
+
+def unsorted_files(ctx):
+    """Files whose rows are not in time order, or hold rows without a time, and in which one row fails its own checks: the
+    temporal issues, told by the row they name, are those of the same rows in time order (every file order of the rows)."""
+    import pandas as pd
+    from hed import load_schema_version
+    from hed.models.tabular_input import TabularInput
+    from hed.models.definition_dict import DefinitionDict
+    rec = ctx.rec
+    schema = load_schema_version("8.3.0")
+    dd = DefinitionDict(DEFS, schema)
+
+    def temporal(rows, ident):
+        df = pd.DataFrame({"onset": [r[0] for r in rows], "HED": [r[1] for r in rows]})
+        issues = TabularInput(df).validate(schema, extra_def_dicts=dd)
+        return sorted((ident[i["ec_row"] - 2], i["message"].split(".")[0][:60]) for i in issues if i["code"] == "TEMPORAL_TAG_ERROR")
+    for bi, base in enumerate(UNSORTED_BASES):
+        n = len(base)
+        try:
+            want = temporal(base, list(range(n)))
+        except Exception as e:
+            rec.violation("C10:unsorted:raises:" + type(e).__name__, rows=base, error=repr(e)[:200])
+            continue
+        variants = [(list(perm), None) for perm in itertools.permutations(range(n))]
+        # a row without a time ("Red", onset n/a) at every position of the file in time order and of its reverse
+        for p in range(n + 1):
+            variants.append((list(range(n)), p))
+            variants.append((list(range(n))[::-1], p))
+        for perm, na_at in variants:
+            rows = [base[i] for i in perm]
+            ident = list(perm)
+            if na_at is not None:
+                rows = rows[:na_at] + [("n/a", "Red")] + rows[na_at:]
+                ident = ident[:na_at] + ["n/a-row"] + ident[na_at:]
+            rec.n("evaluations")
+            rec.n("transitions", len(rows))
+            rec.n("distinct_nontrivial")
+            rec.state(("unsorted", bi, na_at is not None, perm == sorted(perm)))
+            try:
+                got = temporal(rows, ident)
+            except Exception as e:
+                rec.violation("C10:unsorted:raises:" + type(e).__name__, rows=rows, error=repr(e)[:200])
+                continue
+            if got != want:
+                rec.violation("C10:unsorted:file-order-changes-the-bookkeeping" + (":row-without-time" if na_at is not None else ""),
+                              rows=rows, in_time_order=want, got=got)
+            rec.outcome("unsorted:" + str(len(got)))
+
+
 def worst_kind(combo):
     ks = [k for k, _ in combo]
     for k in ("mixed-delay-first", "mixed-delay-second", "delay-shifted-case", "delay-shifted-ms", "delay-shifted", "equal-onset-rows"):
@@ -428,6 +485,7 @@ def run(ctx):
     ctx.parallel(worker_e2e, l3, e2e_two, ctx.thorough, ctx.seed)
     validator_reuse(ctx, ctx.pick(2, 3))
     special_files(ctx)
+    unsorted_files(ctx)
     ctx.rec.counts["states"] = len(ctx.rec.states)
 
 
